@@ -159,7 +159,8 @@ def specPkt (before after : Store) (now : Nat) (pkt : DhcpWire.Dhcp) (serverip :
     (match lookupOpt m.options 51 with
      | some [a, b, c, d] =>
        let L := DhcpWire.be32 a b c d
-       (if Generated.Dhcp.defaultMinLease ≤ L && L ≤ Generated.Dhcp.defaultMaxLease then []
+       -- the documented defaults (5 minutes to 24 hours), not the constants of the source
+       (if 300 ≤ L && L ≤ 86400 then []
         else ["unsat:C10.bounds:outside-default-bounds"]) ++
        (match rowOf after x with
         | some r =>
